@@ -123,19 +123,25 @@ def Db.listKeys (db : Db) (pattern : Bytes) (system : Bool) : List Bytes :=
 inductive IncResp | ok | notNumeric | overflow
 deriving DecidableEq, Repr
 
+/-- the text `inc_value` parses: a missing or removed key counts as `0` -/
+def Db.incText (db : Db) (k : Bytes) : Bytes :=
+  match db.getValue k with
+  | some e => if e.state = .deleted then Gen.zero else e.value
+  | none => Gen.zero
+
+/-- the entry `inc_value` stores: version + 1 and the disk position of an existing entry -/
+def Db.incStore (db : Db) (k next : Bytes) (op : Nat) : Db :=
+  match db.getValue k with
+  | some e => db.setValueVersion k next (e.version + 1) (updState e.state) e.vaddr e.kaddr op
+  | none => db.setValueVersion k next 1 .new 0 0 op
+
 /-- `Database::inc_value` -/
 def Db.incValue (db : Db) (k : Bytes) (inc : Int) (op : Nat) : Db × IncResp × List Push :=
-  let old := db.getValue k
-  let curText : Bytes := match old with
-    | some e => if e.state = .deleted then Gen.zero else e.value
-    | none => Gen.zero
-  match Bytes.parseI32 curText with
+  match Bytes.parseI32 (db.incText k) with
   | some cur =>
     if Bytes.fitsI32 (cur + inc) then
       let next := Bytes.ofInt (cur + inc)
-      let db' := match old with
-        | some e => db.setValueVersion k next (e.version + 1) (updState e.state) e.vaddr e.kaddr op
-        | none => db.setValueVersion k next 1 .new 0 0 op
+      let db' := db.incStore k next op
       (db', .ok, db'.notify k next (-1))
     else (db, .overflow, [])
   | none => (db, .notNumeric, [])
